@@ -362,6 +362,32 @@ def rule_parameter_fields(check, rule):
                             '**kwargs is treated as the outer star parameter' % (fn, 'positional-only parameter' if fn == 'posonlyargs' else fn),
                             key=key, witness='def outer(*args, **kwargs):\n    def sub(args, /): inner(*args, **kwargs)')
     check.floor(rule, 'arg-typed fields of ast.arguments', n, 5)
+    # named parameters of a *nested* function are not arguments of the examined function: their marker must not be an Arg, or a
+    # nested parameter spelled like a known argument (partial(outer, target), self of a bound method) resolves to that value (round 8)
+    mainp = fi.params()[0][2] if len(fi.params()[0]) > 2 else None
+    from .rules_classes import dominated_by
+    for lp in [x for x in ast.walk(fi.node) if isinstance(x, ast.For)]:
+        fields = [a.attr for a in ast.walk(lp.iter) if isinstance(a, ast.Attribute) and a.attr in ('posonlyargs', 'args', 'kwonlyargs')]
+        fields += [c.args[1].value for c in ast.walk(lp.iter) if isinstance(c, ast.Call) and norm(c.func) == 'getattr' and len(c.args) >= 2
+                   and isinstance(c.args[1], ast.Constant) and c.args[1].value in ('posonlyargs', 'args', 'kwonlyargs')]
+        if not fields or _dead_on_this_version(lp):
+            continue
+        for st_ in ast.walk(lp):
+            if not (isinstance(st_, ast.Assign) and any(isinstance(t, ast.Subscript) and norm(t.value).endswith('.namespace') for t in st_.targets)):
+                continue
+            key = 'process_parameters|nested-marker|%s' % '+'.join(sorted(set(fields)))
+            v = st_.value
+            by_main = mainp is not None and ((isinstance(v, ast.IfExp) and mainp in norm(v.test)) or
+                                             dominated_by(fi, st_, lambda t, pol: mainp in norm(t)))
+            makes_arg = any(isinstance(c, ast.Call) and norm(c.func) == 'Arg' for c in ast.walk(v))
+            if makes_arg and not by_main:
+                check.violation(rule, site_of(fi, st_), 'parameters in arguments.%s are entered as known arguments (Arg) also for a nested function: a nested '
+                                'parameter spelled like a known argument of the examined function is resolved to that argument\'s value'
+                                % '/'.join(sorted(set(fields))), key=key,
+                                witness='partial(outer, target) with def outer(target, *args, **kwargs): run = lambda *, target=other: target(*args, **kwargs)')
+            else:
+                check.holds(rule, site_of(fi, st_), 'parameters in arguments.%s of a nested function are entered as unknown values'
+                            % '/'.join(sorted(set(fields))), key=key)
     # only *args gets the immutable marker
     it = Interp(repo, Policy())
     paths = it.run(fi)
